@@ -34,3 +34,4 @@ def check(run, model, tier):
     n = hsmrules.signal_sets(run, model, ['dispatch'])
     run.floor('handler-call sites in dispatch', n, 6)
     run.assume('H1-H4 handler protocol (see C01); a handler that answers HANDLED/IGNORED/UNHANDLED has not called chart.trans')
+    hsmrules.protocol_census(run, model)
